@@ -9,6 +9,7 @@ from hypothesis import strategies as st
 GRID = [0.25, 0.5, 0.75, 1.0, 1.5, 2.0, 3.0]
 GRID_SHORT = [0.25, 0.5, 0.5, 1.0, 1.0, 1.5]
 GRID_LONG = [2.0, 3.0, 4.5, 6.0, 8.0]
+LONG_DIGITS = [0.3333333333333333, 0.14285714285714285, 0.6180339887498949, 1.4142135623730951, 0.7071067811865476]
 DEC_GRID = [0.1, 0.2, 0.3, 0.5, 0.7, 1.1, 1.3]
 DEC_SHORT = [0.1, 0.2, 0.3, 0.3, 0.5, 0.7]
 
@@ -24,7 +25,7 @@ class Profile(object):
     def __init__(self, allowed, weights=None, required=(), numeric="grid", max_nodes=3, max_classes=3,
                  plans=("max_time",), horizon=(4.0, 16.0), budget=600, max_c=3, caps=(0, 1, 2, 3),
                  resumptions=(1, 3), load="mixed", excluded=(), seq_len=5, require_any=(), stay=0.0, finite_arrivals=0.0,
-                 router_kinds=None, routing_kinds=None, min_dests=1, long_service=0.0, node_kinds=None, tracker_kinds=None):
+                 router_kinds=None, routing_kinds=None, min_dests=1, long_service=0.0, node_kinds=None, tracker_kinds=None, long_digits=0.0, min_nodes=1, zero_p=0.1, zero_first=0.12):
         self.allowed = set(allowed)
         self.weights = dict(weights or {})
         self.required = set(required)
@@ -49,6 +50,10 @@ class Profile(object):
         self.long_service = long_service            # probability that a (grid) service distribution is drawn from the long-duration grid
         self.node_kinds = node_kinds                # fixed server kinds per node position, e.g. ("slotted", "schedule"): a pipeline shape
         self.tracker_kinds = tracker_kinds          # restrict the state trackers drawn
+        self.long_digits = long_digits              # probability that a grid value is replaced by a 16-17 significant digit constant
+        self.min_nodes = min_nodes
+        self.zero_p = zero_p                        # probability that a non-arrival grid value is exactly 0
+        self.zero_first = zero_first                # probability that a Sequential arrival stream starts with 0.0 (first customer at t = 0)
 
     def w(self, f, default=0.3):
         if f not in self.allowed:
@@ -91,9 +96,11 @@ def _sub_probs(draw, k, total=8):
 
 def grid_value(draw, prof, positive=True, grid=None):
     g = grid or (DEC_GRID if prof.numeric == "decgrid" else GRID)
-    if not positive and _flag(draw, 0.1):
+    if not positive and _flag(draw, prof.zero_p):
         return 0.0
     v = draw(st.sampled_from(g))
+    if prof.long_digits and _flag(draw, prof.long_digits):
+        v = draw(st.sampled_from(LONG_DIGITS)) if _flag(draw, 0.3) else draw(st.integers(3, 400)) / 97.0
     if prof.numeric == "jitter":
         v = v + draw(st.integers(0, 7)) * 1e-13       # distinct dates that differ by less than 1e-12: near-ties, not ties
     return v
@@ -116,10 +123,15 @@ def dist_grid(draw, prof, role):
     if role in ("arrival", "cct") and vals[0] == 0.0:
         vals[0] = 0.5
     if kind == "seq" and role in ("arrival", "service") and prof.numeric == "grid" and _flag(draw, 0.2):
-        # a combined distribution with a stateful operand (the sum stays on the grid)
-        return ["comb", "add", ["seq", vals], ["det", draw(st.sampled_from([0.0, 0.25, 0.5]))]]
+        # a combined distribution with a stateful operand (the sum stays on the grid) ...
+        comb = ["comb", "add", ["seq", vals], ["det", draw(st.sampled_from([0.0, 0.25, 0.5]))]]
+        if _flag(draw, 0.4):
+            # ... possibly nested inside a mixture (state two levels down: Mixture -> Combined -> Sequential)
+            other = ["det", grid_value(draw, prof, positive=True, grid=g)]
+            return ["mix", [comb, other] if _flag(draw, 0.5) else [other, ["mix", [comb, other], [0.5, 0.5]]], [0.5, 0.5]]
+        return comb
     if kind == "seq":
-        if role == "arrival" and prof.numeric != "decgrid" and "zero_service" in prof.allowed and _flag(draw, 0.12):
+        if role == "arrival" and prof.numeric != "decgrid" and "zero_service" in prof.allowed and _flag(draw, prof.zero_first):
             vals[0] = 0.0          # first arrival exactly at t = 0 (the other values keep the stream's mean positive)
         return ["seq", vals]
     if kind == "pmf":
@@ -169,6 +181,8 @@ def dist(draw, prof, role):
             vals = [round(draw(st.floats(0.05, 1.5, allow_nan=False)), 6) + 1e-7 * (i + 1) for i in range(k)]
         else:
             vals = [grid_value(draw, prof) for _ in range(k)]
+        if prof.numeric != "decgrid" and _flag(draw, 0.2):
+            vals[0] = 0.0          # the stream's first customer arrives at exactly t = 0 (a service can start at date 0.0)
         return ["seq", vals + ["inf"]]
     if prof.numeric == "cont":
         return dist_cont(draw, prof, role)
@@ -321,7 +335,7 @@ def routing(draw, prof, n, self_loops, jockey, kinds):
 # ------------------------------------------------------------------------------------------------
 @st.composite
 def netspec(draw, prof):
-    n = draw(st.integers(1, prof.max_nodes))
+    n = draw(st.integers(prof.min_nodes, prof.max_nodes))
     if prof.node_kinds:
         n = len(prof.node_kinds)
     ncls = draw(st.integers(1, prof.max_classes))
